@@ -50,8 +50,11 @@ def gen_cases(ctx, n):
                             dict(zone="A", name="c", t_supply=60.0, t_target=100.0, heat_flow=40.0, dt_cont=5.0, htc=1.0)],
                    utilities=[dict(name="CW", type="Cold", t_supply=30.0, t_target=30.0, heat_flow=0.0, dt_cont=5.0, htc=1.0, price=1.0)]),
               dict(zones=1, shapes=["D28"], regime="iso"))]                                                  # D28 witness
-    for _ in range(n):
-        regime = ctx.rng.choice(["none", "none", "iso", "multi", "multi", "glide"])
+    for i in range(n):
+        if i % 6 == 0:
+            probs.append(pc.gen_header_problem(ctx.rng))      # generation/use at nearly the same utility level
+            continue
+        regime = ctx.rng.choice(["none", "iso", "multi", "steered", "steered", "glide"])
         probs.append(pc.gen_problem(ctx.rng, regime=regime, nmax=6))
     return probs
 
